@@ -1115,6 +1115,34 @@ func ruleGlobals(c *Ctx) {
 						})
 					}
 				}
+				// a struct that holds references (a map, a slice, a pointer) or a lock, copied as a
+				// whole: the copy shares what the variable refers to and has a lock of its own, so a
+				// method with a value receiver writes the shared map under a lock nobody else holds
+				if st, isStruct := et.Underlying().(*types.Struct); isStruct && !isSyncContainer(et) {
+					holds := ""
+					for fi := 0; fi < st.NumFields(); fi++ {
+						ft := st.Field(fi).Type()
+						switch ft.Underlying().(type) {
+						case *types.Map, *types.Slice, *types.Pointer, *types.Chan:
+							holds = st.Field(fi).Name()
+						}
+						if isSyncContainer(ft) || strings.HasPrefix(types.TypeString(ft, nil), "sync.") {
+							holds = st.Field(fi).Name()
+						}
+					}
+					if holds != "" {
+						for _, fn := range a.fns {
+							if fn.Name() == "init" && fn.Parent() == nil {
+								continue
+							}
+							allInstrs(fn, func(i ssa.Instruction) {
+								if ld, ok := i.(*ssa.UnOp); ok && ld.Op == token.MUL && ld.X == ssa.Value(g) {
+									escapes = append(escapes, "copied as a whole at "+b.posOf(ld)+" (field "+holds+"): the copy shares what the variable refers to and carries a lock of its own — a value-receiver method writes shared memory unsynchronised")
+								}
+							})
+						}
+					}
+				}
 				if n, ok := et.(*types.Named); ok && isSyncContainer(et) && n.Obj().Name() == "Map" && extraGlobalsHook != nil {
 					extraGlobalsHook(c, b, pkg, lab, g)
 				}
